@@ -459,4 +459,13 @@ theorem top_level_not_filtered (chunk : Nat) (hc : 1 ≤ chunk) (f : Filter) (ii
   rw [upload_eq chunk hc]; rfl
 
 
+/-! definitional (not counted as a property theorem) -/
+
+/-- **A filter object that is falsy is no filter** (the code tests `not filter or filter(fn)`): a callable
+defining `__bool__`/`__len__` as false is ignored and everything is transferred, whatever it would reject.
+With a truthy callable the filter is its predicate. -/
+theorem falsy_filter_is_no_filter (p : Name → Bool) :
+    effective (some ⟨false, p⟩) = none ∧ effective (some ⟨true, p⟩) = some p ∧ effective none = none :=
+  ⟨rfl, rfl, rfl⟩
+
 end Rpyc.Files
